@@ -5,7 +5,7 @@ from checks import reggen
 def gen(rng, tier):
     n = 400 if tier == 'quick' else 8000
     for _ in range(n):
-        yield reggen.gen_history(rng, rng.choice([25, 50, 90]), reentry=0.0, traces=True)
+        yield reggen.gen_history(rng, rng.choice([25, 50, 90]), reentry=0.0, traces=True, deep=rng.random() < 0.15)
 
 def gen_reentry(rng, tier):
     n = 100 if tier == 'quick' else 2000
